@@ -176,12 +176,24 @@ def generate(rng, tier, idx):
               in_text=workload.to_csv(in_rows, ',', rng.choice(['\n', '\n', '\r\n']), rng.random() < 0.8),
               join_text=(None if jrows is None else workload.to_csv(jrows, ',')),
               bounded=bool(flags.get('bounded')), buffered=bool(flags.get('buffered')))
+    sc['color'] = rng.random() < 0.12
     if front == 'stream':
         sc['sink'] = gen_sink(rng, enc)
     else:
         sc['in_from'] = rng.choice(['stdin', 'file'])
         sc['out_to'] = rng.choice(['stdout', 'stdout', 'file'])
         sc['sink'] = {'type': 'bytes', 'shape': 'std', 'bufsize': rng.choice([1, 16, 64, 8192]), 'tw_chunk': rng.choice([None, 1, 8, 32, 64])}
+        if sc['out_to'] == 'file':
+            sc['color'] = False
+        if front == 'cli':
+            sc['out_format'] = rng.choice(['input', 'input', 'csv', 'tsv'])
+    if family == 'badbyte' and rng.random() < 0.12:
+        # input well beyond TextIOWrapper's 8 KiB chunk: the damaged byte may sit in a later chunk
+        lines = sc['in_text'].split('\n')
+        body = [l for l in lines[(1 if with_headers else 0):] if l]
+        if body:
+            reps = 12000 // max(1, sum(len(l) + 1 for l in body)) + 1
+            sc['in_text'] = '\n'.join(lines[:(1 if with_headers else 0)] + body * reps) + '\n'
     if family == 'badbyte':
         target = 'join' if (sc['join_text'] and rng.random() < 0.35) else 'input'
         data_len = len((sc['join_text'] if target == 'join' else sc['in_text']).encode('utf-8'))
@@ -483,7 +495,7 @@ def _run_stream(t, sc, fault, obs):
         try:
             chunk_size = bad['chunk_size'] if bad is not None else 1024
             it = t.csv.CSVRecordIterator(make_input(in_data, 'input', 'input'), enc, sc['delim'], sc['policy'], has_header=sc['with_headers'], chunk_size=chunk_size)
-            wr = t.csv.CSVWriter(out_stream, sc['sink'].get('close_on_finish', False), enc, sc['delim'], sc['policy'])
+            wr = t.csv.CSVWriter(out_stream, sc['sink'].get('close_on_finish', False), enc, sc['delim'], sc['policy'], colorize_output=bool(sc.get('color')))
             reg = None
             if sc['join_text'] is not None:
                 jdata = _input_bytes(sc, fault, 'join')
@@ -606,6 +618,10 @@ def _run_process(t, sc, fault, obs):
             argv += ['--output', out_path]
         if sc['with_headers']:
             argv += ['--with-headers']
+        if sc.get('color') and not to_file:
+            argv += ['--color']
+        if sc.get('out_format', 'input') != 'input':
+            argv += ['--out-format', sc['out_format']]
     elif front == 'sqlite_cli':
         argv = ['rbql', 'sqlite', db_path, '--input', table, '--query', query]
         if to_file:
@@ -623,7 +639,7 @@ def _run_process(t, sc, fault, obs):
             elif front == 'file':
                 t.csv.query_csv(query, None if use_stdin else in_path, sc['delim'], sc['policy'], out_path if to_file else None,
                                 sc.get('out_delim', sc['delim'] if sc.get('out_policy') != 'monocolumn' else ''), sc.get('out_policy', sc['policy']), enc, warnings,
-                                sc['with_headers'], None, '', False)
+                                sc['with_headers'], None, '', bool(sc.get('color')) and not to_file)
                 obs['outcome'] = ['ok']
             else:
                 import sqlite3
@@ -777,7 +793,10 @@ def fault_points(sc, full):
         text = sc['join_text'] if bad['where'] == 'join' else sc['in_text']
         n = len(text.encode('utf-8'))
         stride = 1 if n <= 60 else max(1, n // 40)
-        return [{'kind': 'bad_byte', 'where': bad['where'], 'pos': p, 'byte': bad['byte']} for p in range(0, n, stride)]
+        pts = list(range(0, n, stride))
+        if n > 8192:
+            pts = sorted(set(pts[:6] + [8190, 8191, 8192, 8193, n - 2, n - 1] + pts[-6:]))
+        return [{'kind': 'bad_byte', 'where': bad['where'], 'pos': p, 'byte': bad['byte']} for p in pts]
     return [None]
 
 
